@@ -1591,7 +1591,7 @@ impl Conv<&InstDeclaration> for ir::Declaration {
                     && let Some(x) = &x.inst_port.inst_port_opt
                 {
                     let ports: Vec<_> = x.inst_port_list.as_ref().into();
-                    let mut clock_domain_table = HashMap::default();
+                    let mut clock_domain_table: HashMap<ClockDomain, Comptime> = HashMap::default();
 
                     for port in ports {
                         let name = port.identifier.text();
@@ -1626,20 +1626,25 @@ impl Conv<&InstDeclaration> for ir::Declaration {
                                     for expr in exprs.iter_mut() {
                                         let expr_comptime = expr.eval_comptime(context, None);
 
-                                        if let Some(x) =
-                                            clock_domain_table.get(&dst_comptime.clock_domain)
-                                        {
-                                            check_clock_domain(
-                                                context,
-                                                x,
-                                                expr_comptime,
-                                                &token.beg,
-                                            );
-                                        } else {
-                                            clock_domain_table.insert(
-                                                dst_comptime.clock_domain,
-                                                expr_comptime.clone(),
-                                            );
+                                        // A domain-less connection (e.g. a constant) is
+                                        // compatible with everything, so it can't stand
+                                        // for the group: the first connection that
+                                        // carries a domain becomes the representative.
+                                        match clock_domain_table.get(&dst_comptime.clock_domain) {
+                                            Some(x) if x.clock_domain != ClockDomain::None => {
+                                                check_clock_domain(
+                                                    context,
+                                                    x,
+                                                    expr_comptime,
+                                                    &token.beg,
+                                                );
+                                            }
+                                            _ => {
+                                                clock_domain_table.insert(
+                                                    dst_comptime.clock_domain,
+                                                    expr_comptime.clone(),
+                                                );
+                                            }
                                         }
                                     }
 
